@@ -88,6 +88,9 @@ def run(chk, decks, clauses, seed, opts_of=None, npts=96):
             for c in d['cells']:         # redundant parentheses around runs of operands: same region
                 if not c.get('like'):
                     c['parens'] = ('pairs%d' % (1 + (i // 7) % 3)) if c.get('lat') else rng.randrange(1000)
+        if i % 7 == 6:
+            for c in d['cells']:         # the equals sign of a keyword is optional
+                c['eqstyle'] = 'blank' if (i // 7) % 2 else 'spaced'
         if i % 7 == 5:
             adeck.imp_datacards(d, i // 7)         # importances on an IMP:N data card, written as reals
         if i % 5 == 1:
